@@ -103,6 +103,70 @@ def model_trees(specdir, rep, tier, rng):
     return cases
 
 
+BSDTAR = next((p for p in ("/root/miniconda/bin/bsdtar", "/usr/bin/bsdtar", "/usr/local/bin/bsdtar") if os.path.exists(p)), None)
+
+
+def third_party_reader(scratch, harness, rep, tier, rng):
+    """An independent ISO 9660 reader (libarchive's bsdtar, where installed) extracts generated images; what it extracts must be
+    exactly the source tree: same paths (Joliet names), kinds, sizes and bytes.  This does not go through the harness's own
+    decoder: it anchors that decoder's judgement on third-party code."""
+    import filecmp
+    import subprocess
+    if not BSDTAR:
+        rep.notes.append("third-party reader: bsdtar not installed, cross-check skipped")
+        return
+    trees = [("tp-small%d" % i, isotrees.small_tree(rng, max_nodes=rng.choice([3, 8, 15]))) for i in range(6 if tier == "quick" else 40)]
+    trees += [("tp-wide", isotrees.wide_tree(rng, 130, 9)), ("tp-deep", isotrees.deep_tree(rng, 6)),
+              ("tp-fill", isotrees.exact_fill_tree(2048, True)[0]), ("tp-fill-iso", isotrees.exact_fill_tree(4096, False)[0]),
+              ("tp-names", [srv.dnode(["d"], 1500000000), srv.fnode(["d", "n" * 60 + ".bin"], 10, cid="tpn1", mtime=1500000001),     # (Joliet names: 64 characters by the book)
+                            srv.fnode(["d", "MiXeD-Case_name.v1.02.iso"], 2049, cid="tpn2", mtime=1500000002), srv.dnode(["d", "Dir.With.Dots"], 1500000003),
+                            srv.fnode(["d", "Dir.With.Dots", "in.bin"], 5, cid="tpn3", mtime=1500000004), srv.fnode(["d", "empty"], 0, mtime=1500000005)])]
+    ok = 0
+    for name, nodes in trees:
+        base = os.path.join(scratch, name)
+        os.makedirs(base)
+        nf = os.path.join(base, "nodes.json")
+        json.dump(nodes, open(nf, "w"))
+        for args in (["mkworld", "-nodes", nf, "-base", base], ["dumpiso", "-dir", os.path.join(base, "g", "d"), "-ps3", "false", "-out", os.path.join(base, "img.iso")]):
+            p = common.run_harness(harness, args, timeout=600)
+            if p.returncode != 0:
+                raise common.CheckError("harness %s failed: %s" % (args[0], p.stderr[-400:]))
+        out = os.path.join(base, "x")
+        os.makedirs(out)
+        p = subprocess.run([BSDTAR, "-xf", os.path.join(base, "img.iso"), "-C", out], stdout=subprocess.PIPE, stderr=subprocess.PIPE, text=True, timeout=600,
+                           env=dict(os.environ, LC_ALL="C.UTF-8", LANG="C.UTF-8"))
+        src = os.path.join(base, "g", "d")
+        diffs = []
+        if p.returncode != 0:
+            diffs.append("bsdtar: " + p.stderr.strip()[-300:])
+
+        def walk(root):
+            res = {}
+            for dp, dns, fns in os.walk(root):
+                rel = os.path.relpath(dp, root)
+                for d in dns:
+                    res[os.path.normpath(os.path.join(rel, d))] = "dir"
+                for f in fns:
+                    res[os.path.normpath(os.path.join(rel, f))] = os.path.getsize(os.path.join(dp, f))
+            return res
+        a, b = walk(src), walk(out)
+        for k in sorted(set(a) | set(b)):
+            if a.get(k) != b.get(k):
+                diffs.append("%s: source %r, extracted %r" % (k, a.get(k), b.get(k)))
+            elif a[k] != "dir" and not filecmp.cmp(os.path.join(src, k), os.path.join(out, k), shallow=False):
+                diffs.append("%s: bytes differ" % k)
+        if diffs:
+            rep.violation("ThirdParty:" + ("listing" if any("source" in d or "bsdtar" in d for d in diffs) else "bytes"),
+                          "libarchive (bsdtar -xf) does not extract the source tree from the image generated for %s:\n%s" % (name, "\n".join(diffs[:12])),
+                          {"nodes.json": nodes})
+        else:
+            ok += 1
+        import shutil
+        shutil.rmtree(base, ignore_errors=True)
+    rep.cov["third_party_reader_trees"] = ok
+    rep.notes.append("third-party reader: libarchive extracted %d of %d generated images to exactly the source tree" % (ok, len(trees)))
+
+
 def network_route(scratch, harness, specdir, rep, tier, rng):
     """The same images over the network (***DVD*** / ***PS3*** prefixes): every byte the real server sends for the whole image is
     compared with the library view decoded above - including trees whose members the server's file system would transform when
@@ -152,6 +216,7 @@ def run(tier, seed, replay=None, prop=PROP, cfg=CFG, extra_cases=None):
             design(rep, specdir, tier, prop)
         if not replay and prop == "C07":
             network_route(scratch, harness, specdir, rep, tier, rng)
+            third_party_reader(scratch, harness, rep, tier, rng)
         rep.cov["rule"] = ("directory trees (random small trees, depth 8, 40..300 entries, empty directories, sparse files of "
                            "4 GiB-2 KiB .. 9 GiB, PS3 mode) opened through the library (BasePathFs and OsFs); image decoded by the "
                            "fixed-offset reader; TLC evaluates the clauses; distinct_nontrivial = trees whose volume TLC accepted")
